@@ -80,9 +80,11 @@ where
                     lock.state = ReactiveNodeState::Check;
                 }
             }
-            for sub in
-                (&reactivity.read().or_poisoned().subscribers).into_iter()
-            {
+            // notify a snapshot of the subscribers without holding our own lock: a subscriber
+            // that runs synchronously when it is notified (an `ImmediateEffect`) reads this
+            // memo again, and `update_if_necessary` needs the write lock
+            let subs = reactivity.read().or_poisoned().subscribers.clone();
+            for sub in subs {
                 sub.mark_check();
             }
         }
@@ -90,8 +92,9 @@ where
     }
 
     fn mark_subscribers_check(&self) {
-        let lock = self.reactivity.read().or_poisoned();
-        for sub in (&lock.subscribers).into_iter() {
+        // see `mark_check`: do not hold our own lock while the subscribers are notified
+        let subs = self.reactivity.read().or_poisoned().subscribers.clone();
+        for sub in subs {
             sub.mark_check();
         }
     }
